@@ -27,6 +27,12 @@ class VLoop(asyncio.SelectorEventLoop):
         self._vtime = float(start)
         self.max_iterations = 2_000_000
         self._iters = 0
+        # optional schedule hook: called with the loop at every iteration boundary -- once before the
+        # clock may jump to the next timer ("event arrives right after the previous activity") and, if the
+        # clock did jump, once more at the new instant ("event arrives together with the timer").
+        # Whatever the hook schedules with call_soon runs in this iteration after the already-ready
+        # handles, exactly where the selector would put an I/O event.
+        self.on_boundary = None
 
     def time(self) -> float:
         return self._vtime
@@ -40,11 +46,15 @@ class VLoop(asyncio.SelectorEventLoop):
             self._timer_cancelled_count -= 1
             h = heapq.heappop(sched)
             h._scheduled = False
+        if self.on_boundary is not None:
+            self.on_boundary(self)
         if not self._ready:
             if sched:
                 when = sched[0]._when
                 if when > self._vtime:
                     self._vtime = when
+                    if self.on_boundary is not None:
+                        self.on_boundary(self)
             elif not self._stopping:
                 raise VDeadlock("nothing ready and nothing scheduled")
         super()._run_once()
